@@ -519,6 +519,51 @@ def oracle_id_coincidence(rng):
     return None
 
 
+def oracle_pickled_objects(rng):
+    """constraint and Variable objects restored from a pickle (in either order in the pickled tuple, with constraints stated on slices of the
+    Variable, affine and nonlinear) build the same model as a fresh copy, before and after the originals were compiled.  (A pickle of the constraints
+    WITHOUT their Variable is outside the property: it speaks of the restored constraint AND Variable objects.)"""
+    import pickle
+    import sageopt.coniclifts as cl
+    from sageopt.coniclifts.operators.abs import abs as clabs
+
+    def build(tag):
+        x = cl.Variable(shape=(3,), name='pk_x' + tag)
+        cons = [x[1:] >= 1, cl.Expression([x[0] + x[1] + x[2]]) <= 10, x[0] >= x[1] + 2 * x[2], clabs(x[:2] - np.array([4.0, 0.0])) <= np.array([3.5, 5.0])]
+        return x, cons
+    with warnings.catch_warnings():
+        warnings.simplefilter('ignore')
+        xf, cf = build('f')
+        pf = cl.Problem(cl.MIN, xf[0], cf)
+        pf.solve(verbose=False)
+        fresh = (signature(pf.K), pf.A.shape, pf.status, round(float(pf.value), 5))
+        for order in ('variable_first', 'constraints_first'):
+            for compiled_before in (False, True):
+                x, cons = build(order[:1])
+                if compiled_before:
+                    cl.Problem(cl.MIN, x[0], cons).solve(verbose=False)
+                try:
+                    if order == 'variable_first':
+                        x2, cons2 = pickle.loads(pickle.dumps((x, cons)))
+                    else:
+                        cons2, x2 = pickle.loads(pickle.dumps((cons, x)))
+                    got = []
+                    for _ in range(2):
+                        p2 = cl.Problem(cl.MIN, x2[0], cons2)
+                        p2.solve(verbose=False)
+                        got.append((signature(p2.K), p2.A.shape, p2.status, round(float(p2.value), 5)))
+                except Exception as e:
+                    return ('x = Variable(3), constraints [x[1:] >= 1, sum(x) <= 10, x0 >= x1 + 2 x2, |x[:2] - (4, 0)| <= (3.5, 5)]%s; pickled and loaded as %s; '
+                            'building a Problem from the restored objects raised %s: %s'
+                            % (' (compiled and solved once)' if compiled_before else '', order, type(e).__name__, ' '.join(str(e).split())[:160]))
+                for g in got:
+                    if g != fresh:
+                        return ('x = Variable(3), constraints [x[1:] >= 1, sum(x) <= 10, x0 >= x1 + 2 x2, |x[:2] - (4, 0)| <= (3.5, 5)]%s; pickled and loaded as %s; '
+                                'the Problem built from the restored objects has (K, A.shape, status, value) = %s, a fresh copy %s'
+                                % (' (compiled and solved once)' if compiled_before else '', order, g, fresh))
+    return None
+
+
 def run(ctx):
     cases = []
     for _ in range(ctx.n(120, 1200)):
@@ -560,7 +605,7 @@ def run(ctx):
             ctx.problem('oracle', 'property fails on the implementation: ' + why, inputs=meta, failing_input_found=True)
             break
     ctx.suites['subset_histories'] = {'cases': nsub}
-    for name, f in (('resolve', oracle_resolve), ('separately_then_together', oracle_separately_then_together), ('settings_snapshot', oracle_settings), ('generations', oracle_generations), ('id_coincidence', oracle_id_coincidence)):
+    for name, f in (('resolve', oracle_resolve), ('separately_then_together', oracle_separately_then_together), ('settings_snapshot', oracle_settings), ('generations', oracle_generations), ('id_coincidence', oracle_id_coincidence), ('pickled_objects', oracle_pickled_objects)):
         why = f(ctx.rng)
         ctx.suites[name] = {'cases': 1, 'failure': why}
         ctx.evaluations += 1
@@ -577,7 +622,7 @@ def search(ctx):
         why, meta = subset_history(ctx.rng)
         if why:
             return dict(meta, property_failure=why)
-    for name, f in (('resolve', oracle_resolve), ('separately_then_together', oracle_separately_then_together), ('settings_snapshot', oracle_settings), ('generations', oracle_generations), ('id_coincidence', oracle_id_coincidence)):
+    for name, f in (('resolve', oracle_resolve), ('separately_then_together', oracle_separately_then_together), ('settings_snapshot', oracle_settings), ('generations', oracle_generations), ('id_coincidence', oracle_id_coincidence), ('pickled_objects', oracle_pickled_objects)):
         why = f(ctx.rng)
         if why:
             return {'suite': name, 'property_failure': why}
